@@ -1,7 +1,7 @@
 """C05 - a status broadcast is decoded into exactly the device the sender described."""
 from hypothesis import strategies as st
 
-from .. import gen
+from .. import gen, vclock
 from ..engine import Sub, Violation
 from ..fake import net, udptx
 from ..ref import broadcast as refb
@@ -114,7 +114,14 @@ async def run_batch(rep, case, sub):
 
 def make_body(sub):
     def body(rep, case):
-        net.run(run_batch(rep, case, sub), timeout=120)
+        zone = case.get("zone", "UTC")
+        if zone != "UTC":
+            # the decoded device must not depend on where the host is
+            rep.label("host-zone-not-utc")
+            with vclock.frozen(zone, 2024, 7, 1, 12, 0, 0):
+                net.run(run_batch(rep, case, sub), timeout=120)
+        else:
+            net.run(run_batch(rep, case, sub), timeout=120)
     return body
 
 
@@ -155,8 +162,9 @@ def fields_for(code):
 
 
 def strat(code):
-    return lambda: st.builds(lambda ds, salt: {"datagrams": ds, "salt": salt},
-                             st.lists(fields_for(code), min_size=1, max_size=12), st.integers(1, 200))
+    return lambda: st.builds(lambda ds, salt, z: {"datagrams": ds, "salt": salt, "zone": z},
+                             st.lists(fields_for(code), min_size=1, max_size=12), st.integers(1, 200),
+                             st.sampled_from(["UTC", "UTC", "UTC", "Asia/Jerusalem", "America/New_York", "Asia/Kathmandu"]))
 
 
 def subchecks(tier):
